@@ -1471,7 +1471,22 @@ func (ex *Exec) builtin(st *State, name string, call *ast.CallExpr, sc *SpecCtx)
 			if sc == nil {
 				ex.safety(st, "make-size", call.Pos(), "(<= 0 "+n.S+")")
 				if ex.boundMake {
-					ex.safety(st, "make-bounded", call.Pos(), "(<= "+n.S+" 1073741824)")
+					// the allocation must be bounded by a constant or by what the contract names
+					// as the bound (typically the length of the input still to be read)
+					bound := "1073741824"
+					if ex.contract != nil {
+						for _, cl := range ex.contract.Clauses {
+							if cl.Kind == "assert" && strings.HasPrefix(cl.Text, "makebound ") {
+								if e, err := parseSpecExpr(strings.TrimPrefix(cl.Text, "makebound ")); err == nil {
+									bsc := ex.ownCtx(ex.entry, call.Pos())
+									ex.specDepth++
+									bound = ex.eval(st, e, bsc).S
+									ex.specDepth--
+								}
+							}
+						}
+					}
+					ex.safety(st, "make-bounded", call.Pos(), "(<= "+n.S+" "+bound+")")
 				}
 				if len(call.Args) > 2 {
 					c := ex.eval(st, call.Args[2], sc)
